@@ -48,7 +48,7 @@ func runC08(c *Ctx) {
 
 func c08R2(c *Ctx, r *c08Roles) {
 	const R2 = "C08.R2.persist-tag-mutations"
-	c.Expect(R2, 15)
+	c.Expect(R2, 12)
 	c08ComputeDirty(c.P, r)
 	nMut := 0
 	for _, f := range c.P.FuncsOfPkg(c08Pkg) {
@@ -697,10 +697,12 @@ func c08R1(c *Ctx, r *c08Roles) {
 				okW = false
 			}
 		}
-		for _, ret := range Returns(S) {
-			if ReachableFromEntry(ret) && !MustPass(ret, newCut().Calls(wr)) {
-				okW = false
-			}
+		var wrIns []ssa.Instruction
+		for _, w := range wr {
+			wrIns = append(wrIns, w.(ssa.Instruction))
+		}
+		if !c09NilReturnsPass(S, wrIns) { // a failure before the write (marshalling) returns its error
+			okW = false
 		}
 		c.Check(R1, sn+"|result-written-and-error-returned", S.Pos(), okW, ifelse(okW, "s.index.Manifests is assigned before the index file is written on every path, and the write error is returned", "the projection is not written on every path, is written before it is assigned, or the write error is dropped"))
 	}
@@ -803,9 +805,9 @@ func c08R3(c *Ctx, r *c08Roles) {
 			}
 			return inObj(bind(c09CellOrValue(last)))
 		}, 2))
-		ok1 := len(byDigest) > 0 && !reach(body.To, 0, header, newCut().Instr(byDigest...))
+		ok1 := len(byDigest) > 0 && !c08PathExists(body.To, 0, header, false, newCut().Instr(byDigest...), nil)
 		c.Check(R3, ln+"|every-entry-tagged-by-digest-stripped", blockPos(l.Header), ok1, ifelse(ok1, "each index entry is tagged by its digest with the ref-name annotation removed", "an index entry can be skipped (or keeps its ref-name annotation) when tagging by digest: Resolve(digest) differs after reopen"))
-		ok2 := len(idxAll) > 0 && !reach(body.To, 0, header, newCut().Instr(idxAll...))
+		ok2 := len(idxAll) > 0 && !c08PathExists(body.To, 0, header, false, newCut().Instr(idxAll...), nil)
 		c.Check(R3, ln+"|every-entry-indexed", blockPos(l.Header), ok2, ifelse(ok2, "each index entry's graph is indexed", "an index entry's graph may not be indexed: Predecessors differ after reopen"))
 		// Tag(desc, desc.Annotations[refName]) exactly when the annotation is non-empty: evaluated in the
 		// function that hosts that call (the loader, or the helper that handles one entry)
@@ -896,7 +898,7 @@ func c08R3(c *Ctx, r *c08Roles) {
 				ct := newCut().Instr(tc.(ssa.Instruction))
 				for _, e := range nonEmpty {
 					if h.loop != nil {
-						if reach(e.To, 0, h.loop.Header.Instrs[0], ct) {
+						if c08PathExists(e.To, 0, h.loop.Header.Instrs[0], false, ct, nil) {
 							ok3 = false
 						}
 					} else if c08NilReturnFrom(e.To, 0, ct) != nil {
@@ -923,7 +925,17 @@ func c08R3(c *Ctx, r *c08Roles) {
 				}
 				if isTag(n) || n == "(*~/internal/graph.Memory).IndexAll" || helper {
 					if res := ErrFlow(call, ErrFlowOpts{}); !res.OK {
-						okErr, detail = false, FnName(fn)+": "+res.Detail
+						// chained form (`err := a(); if err == nil { err = b() }; if err != nil { return err }`):
+						// decided with the nil facts carried along each path
+						in := call.(ssa.Instruction)
+						e := ErrOf(call)
+						swallowed := e == nil || c08PathExists(in.Block(), instrIndex(in)+1, nil, true, nil, []ssa.Value{e})
+						if !swallowed && fn == L {
+							swallowed = c08PathExists(in.Block(), instrIndex(in)+1, header, false, nil, []ssa.Value{e})
+						}
+						if swallowed {
+							okErr, detail = false, FnName(fn)+": "+res.Detail
+						}
 					}
 				}
 				if helper {
